@@ -114,6 +114,9 @@ var accessors = map[string]string{
 	"req.only":              `json_encode($req->only("x"))`,
 	"req.body":              `$req->body()`,
 	"req.url":               `$req->url()`,
+	"req.clone.header":      `$req->clone()->header("X-T")`,
+	"req.clone.path":        `$req->clone()->path()`,
+	"req.clone.query":       `$req->clone()->query()->x`,
 }
 
 var accNames []string
@@ -537,28 +540,37 @@ func exec(t *testing.T, x any, s hx.Sched) *hx.Outcome {
 			}
 		}
 	}
-	// solo oracle: a second fresh interpreter serves the same requests strictly one at a time
-	verifsim.SetMapConfig(&verifsim.MapConfig{Mode: verifsim.MapSorted})
+	// solo oracle: a second fresh interpreter serves the same requests strictly one at a time. It runs as the
+	// only task of a simulation of its own, so that the seams (map order, sync.Pool, select, rand) are as
+	// deterministic for it as for the concurrent run
 	soloErrs := make([]string, len(w.Reqs))
-	soloEnv, soloMux, err := boot(w, src, soloErrs)
+	solo := make([]obs, len(w.Reqs))
+	solo2 := make([]obs, len(w.Reqs))
+	var soloEnv *hx.Env
+	var err string
+	hx.RunBubble(t, verifsim.Config{Seed: s.Seed, MeanGap: 1 << 30, MaxSteps: 4000000, MapMode: verifsim.MapSorted}, func(sim *verifsim.Sim) {
+		sim.Spawn("solo", func() {
+			var soloMux *http.ServeMux
+			soloEnv, soloMux, err = boot(w, src, soloErrs)
+			if err != "" {
+				return
+			}
+			soloEnv.Capture()
+			for i := range w.Reqs {
+				solo[i] = serveOne(w, soloMux, i)
+				solo[i].Err = soloErrs[i]
+			}
+			for i := len(w.Reqs) - 1; i >= 0; i-- {
+				solo2[i] = serveOne(w, soloMux, i)
+				solo2[i].Err = soloErrs[i]
+			}
+		})
+	})
+	data.ResetOutputWriter()
 	if err != "" {
-		verifsim.SetMapConfig(nil)
 		o.Violate("C11/harness-setup", "server script failed: "+err)
 		return o
 	}
-	restore := soloEnv.Capture()
-	solo := make([]obs, len(w.Reqs))
-	solo2 := make([]obs, len(w.Reqs))
-	for i := range w.Reqs {
-		solo[i] = serveOne(w, soloMux, i)
-		solo[i].Err = soloErrs[i]
-	}
-	for i := len(w.Reqs) - 1; i >= 0; i-- {
-		solo2[i] = serveOne(w, soloMux, i)
-		solo2[i].Err = soloErrs[i]
-	}
-	restore()
-	verifsim.SetMapConfig(nil)
 	for i := range solo {
 		// the generated handlers must work when run alone, or they test nothing
 		if w.Reqs[i].AbortAt < 0 && !w.Reqs[i].FailW {
